@@ -35,6 +35,8 @@ func runC06(p *eng.Prog, r *eng.Report, tier string) {
 	serveWait(c, "C06.9")
 	serveLockWait(c, "C06.14")
 	callerAttrsCopied(c, "C06.15")
+	idTypFromOwnAttributes(c, "C06.16")
+	pageTurnClosesFirst(c, "C06.17")
 	waitKey(c, "C06.10")
 	handoffDrained(c, "C06.2")
 	cancelledWaiterToHandler(c, "C06.2")
